@@ -51,6 +51,9 @@ func (r *Rand) Bytes(n int) []byte { b := make([]byte, n); for i := range b { b[
 
 // RunLean pipes lines to the Lean driver executable and returns one output line per input line.
 func RunLean(driver string, lines []string) ([]string, error) {
+	if len(lines) == 0 {
+		return []string{}, nil
+	}
 	cmd := exec.Command(driver)
 	cmd.Stdin = strings.NewReader(strings.Join(lines, "\n") + "\n")
 	var out, errb bytes.Buffer
